@@ -87,6 +87,7 @@ class LoopSpec:
         self.unfold = unfold
         self.name = name
         self.pre = pre          # pre(I, env) -> snapshot stored in env['$pre'] before the havoc
+        self.on_exit = None             # on_exit(kind, tag): ghost hook called when the body of an arbitrary iteration leaves the loop early ('break' | 'return' | 'raise')
         self.exit_facts = exit_facts    # exit_facts(I, env, k, it) -> proved lemma instances assumed when the body leaves the loop early (return / raise / break)
 
 
@@ -924,11 +925,15 @@ class Interp:
                 if lspec.exit_facts:
                     for f in lspec.exit_facts(self, fr.env, k, it):
                         ctx.assume(f)
+                if lspec.on_exit:
+                    lspec.on_exit('break', tag)
                 return      # continue after the loop with the state at the break
-            except (_Return, PyRaise):
+            except (_Return, PyRaise) as ex:
                 if lspec.exit_facts:
                     for f in lspec.exit_facts(self, fr.env, k, it):
                         ctx.assume(f)
+                if lspec.on_exit:
+                    lspec.on_exit('return' if isinstance(ex, _Return) else 'raise', tag)
                 raise
             for name, f in lspec.inv(self, fr.env, nxt, it).items():
                 ctx.check('%s.inv.%s.step' % (tag, name), f, lspec.kind,
@@ -1990,6 +1995,8 @@ class Interp:
                 for x in a[1:]:
                     out = z3.Concat(out, z3.StringVal(o), to_z3(x, StrS))
                 return out
+            if isinstance(a, SymSeq) and a.arity is None and a.keys is None and a.cols[0].sort() == z3.SeqSort(StrS):
+                return UF('str.join', StrS, z3.SeqSort(StrS), StrS)(z3.StringVal(o), a.cols[0])
             return Untracked()
         if isinstance(o, str) and all(isinstance(a, (str, int)) for a in args) and attr in STR_METHODS_CONCRETE:
             return getattr(o, attr)(*args)
